@@ -49,8 +49,10 @@ def main():
         k = os.path.basename(os.path.dirname(d))
         c = m["caught_by"]
         builder = str(m.get("source", "")).startswith("builder")
-        if k == "C11-1":
+        if k == "C11-1" or c.startswith("made harmless"):
             st = "made harmless by a repair"
+        elif c.startswith("MISSED by the swept version of round 4"):
+            st = "missed in round 4 (after the sweep), caught after strengthening"
         elif builder and c.startswith("MISSED"):
             st = "builder mutation (round 4): missed by the previous version, caught after the sweep"
         elif builder:
@@ -67,7 +69,7 @@ def main():
             st = "correspondence only"
         else:
             st = "caught"
-        rows.append((k, m["needs"], st, re.sub(r"^MISSED by the (?:first version|version before round [234])(?: \((.*?)\))?; ", lambda m: "missed at first" + (f" ({m.group(1)})" if m.group(1) else "") + "; ", c)))
+        rows.append((k, m["needs"], st, re.sub(r"^MISSED by the (?:first version|version before round [234]|swept version of round 4)(?: \((.*?)\))?; ", lambda m: "missed at first" + (f" ({m.group(1)})" if m.group(1) else "") + "; ", c)))
     out.append("### 9.5 Seeded changes (independent sub-agents, property text only; plus the builders' own mutations of round 4) and which checks catch them\n")
     out.append("Each directory `seeded/<id>-<n>/` holds `patch.diff`, `demo.py` (exit 0 on the clean tree, non-zero on the patched tree - confirmed "
                "by `harness/run_seeded.sh`, which applies the patch to a scratch worktree of `/repo`'s HEAD, runs the demo on both trees and runs "
